@@ -45,7 +45,9 @@ def runCase (inp obs : String) : CaseResult :=
       let r1 := h1.map (·.1); let r0 := h0.map (·.1)
       let model := "B:" ++ "/".intercalate r1 ++ " @@ D:" ++ "/".intercalate r0
       let stmtImpl := a == r1 && b == r1 && cc == r0 && d == r0
-      let okHaz := fun (_ : String) => true
+      -- `+` on a large array no longer excuses anything: since repo fix (AppendTarget) the result gets storage of its own
+      -- whenever the first free slot of the left operand's storage was already written through another array
+      let okHaz := fun (h : String) => hazardClass h != "large-array-append-shares-capacity"
       -- only operations through a name that may share storage with another live name count (may-alias analysis)
       let hz0 := sharedHazards c.asts r0 (h0.map (·.2))
       let hz1 := if h1 == h0 then hz0 else sharedHazards c.asts r1 (h1.map (·.2))
